@@ -105,9 +105,12 @@ def _bfs_named(V):
     start = V.choose(list(range(n)), "start")
     nbrs = sorted({q if p == start else p for p, q in edges if start in (p, q)})
     direction = V.choose([None] + nbrs, "direction")
-    V.witness(lambda ev: {"op": "bfs", "edges": edges, "start": start, "direction": direction, "signature": "bfs"})
+    # atoms may be named by Atom object or by index (AtomLike): index 0 is a legitimate direction
+    by = V.choose(["atom", "index"], "atoms-given-as")
+    V.witness(lambda ev: {"op": "bfs", "edges": edges, "start": start, "direction": direction, "by": by, "signature": "bfs"})
     V.cover()
-    args = [atoms[start]] + ([atoms[direction]] if direction is not None else [])
+    pick = (lambda j: atoms[j]) if by == "atom" else (lambda j: j)
+    args = [pick(start)] + ([pick(direction)] if direction is not None else [])
     I.target = f"{CON}.yield_bfsd"
     try:
         got = [(atoms.index(a), d) for a, d in I.iterate(I.call(I.getattr_(m, "yield_bfsd"), args, {}))]
@@ -225,7 +228,8 @@ def _matching(V):
     G.ns["add_node"] = Builtin("add_node", lambda i, a, k: a[0].fields["nodes"].append((a[1], k)))
     G.ns["add_edge"] = Builtin("add_edge", lambda i, a, k: a[0].fields["edges"].append((a[1], a[2], k)))
     I.ext_models["networkx.Graph"] = G
-    isos = [DictV([(ma[1], pa[0]), (ma[2], pa[1])]), DictV([(ma[2], pa[0]), (ma[1], pa[1])])]
+    # VF2 reports each mapping in the order in which it assigned the nodes -- not necessarily the order of the pattern's atoms
+    isos = [DictV([(ma[1], pa[0]), (ma[2], pa[1])]), DictV([(ma[1], pa[1]), (ma[2], pa[0])])]
 
     def matcher(i, a, k):
         calls.append((a, k))
@@ -238,8 +242,9 @@ def _matching(V):
     V.ensure("match/matcher-gets-(molecule,pattern)-and-the-two-predicates", z3.BoolVal(bool(okw)))
     V.ensure("match/graphs-carry-every-atom-and-bond", z3.BoolVal(len(calls) == 1 and len(calls[0][0][0].fields["edges"]) == 2 and len(calls[0][0][1].fields["edges"]) == 1))
     V.ensure("match/results-map-pattern-atoms-to-molecule-atoms",
-             z3.BoolVal(len(got) == 2 and all(isinstance(g, DictV) for g in got) and got[0].keys == [pa[0], pa[1]] and got[0].vals == [ma[1], ma[2]]
-                        and got[1].vals == [ma[2], ma[1]]))
+             z3.BoolVal(len(got) == 2 and all(isinstance(g, DictV) for g in got)
+                        and {id(k_): v_ for k_, v_ in zip(got[0].keys, got[0].vals)} == {id(pa[0]): ma[1], id(pa[1]): ma[2]}
+                        and {id(k_): v_ for k_, v_ in zip(got[1].keys, got[1].vals)} == {id(pa[0]): ma[2], id(pa[1]): ma[1]}))
     idx = [x.items if isinstance(x, ListV) else x for x in I.iterate(I.call(I.getattr_(mol, "get_substr_indices"), [pat], {}))]
     V.ensure("match/get_substr_indices-lists-images-in-pattern-atom-order", z3.BoolVal(idx == [[1, 2], [2, 1]]))
 
